@@ -33,3 +33,6 @@ def run(repo, res, tier):
     from .. import apirules as _ap20
     _ap20.rule_f1(repo, res, "__init__")
     _ap5.rule_f2c(repo, res)
+    # pvl_validate and pvl_translate keep one encoder per dialect for all files of a run: no per-call state on the encoders
+    from .. import effects as _eff20
+    _eff20.rule_estate(repo, res, families=("PVLEncoder",))
